@@ -146,10 +146,21 @@ def plan_c01(tier, seed, workdir, case):
         g, rej = G.grammar()
         attach_void_actions(g, rnd)
         gs.append(g)
+    # "all byte strings": literals and sets with NUL, 0x80 and 0xff over an alphabet that contains them
+    GB = gen.Gen(seed * 1000 + 19, ops=CORE_OPS, max_depth=3 if tier == "quick" else 4,
+                 atoms=["any", "one", "not_one", "string2", "eof", "ab", "bin_one", "bin_one", "bin_not_one", "bin_string", "bin_string", "bin_string"])
+    gb = []
+    for _ in range(30 if tier == "quick" else 300):
+        g, rej = GB.grammar()
+        g.alphabet = "a\x00b\xff"
+        attach_void_actions(g, rnd)
+        gb.append(g)
     shapes = slot_shapes(CORE_OPS, CORE_OPS)
     for g in shapes:
         attach_void_actions(g, rnd)
     runs = []
+    for t in write_tus(workdir, "c01b", gb, 10 if tier == "quick" else 25, 3):
+        runs.append(Run(t, args=["--prop", "C01"]))
     for t in write_tus(workdir, "c01c", gs, 10 if tier == "quick" else 25, 3):
         runs.append(Run(t, args=["--prop", "C01"]))
     for t in write_tus(workdir, "c01s", shapes, 12, 3):
@@ -160,7 +171,8 @@ def plan_c01(tier, seed, workdir, case):
 spec("C01", plan=plan_c01,
      rule="(a) seeded random grammars over seq/sor/star/plus/opt/at/not_at and any/one/not_one/range/string/eof/success/failure with 1..4 "
           "mutually recursive named rules (well-formedness filter: no nullable repetition body, no left recursion), each run on ALL "
-          "strings up to length 5 (thorough 7) over its own 4-letter alphabet, shortest first, plus rapidcheck strings <= 20; (b) every "
+          "strings up to length 5 (thorough 7) over its own 4-letter alphabet, shortest first, plus rapidcheck strings <= 20; (a2) the same "
+          "with literals and character sets containing NUL, 0x80 and 0xff over the alphabet {a, NUL, b, 0xff}; (b) every "
           "core operator and every 7x7 nesting over adversarial scripted leaves (slots: consume n bytes then succeed/fail/raise/throw per "
           "class of next byte; on failure they rewind only under rewind_mode::required), bare / inside seq / inside sor, with rapidcheck-"
           "generated scripts and inputs.  Each case runs under 5 configurations (apply mode x top-level rewind mode x void actions "
@@ -425,7 +437,7 @@ spec("C02", plan=plan_c02,
      rule="every rule invocation of every run is observed through a control whose match() wraps normal<Rule>::match: (a) rule zoo - "
           "integer family, raw_string (with/without content rules, two policies), rep_one_min_max, predicates, http chunk rules, "
           "istring/string/bytes, eol/eolf under five policies, identifier/keyword/shebang, utf8/16/32 and uintN rules, each bare and inside "
-          "sor<R,any>, opt, not_at, at, seq<R,eof>, star, with no action / apply / apply0 attached to the rule, eager and lazy, on ALL "
+          "sor<R,any>, opt, not_at, at, seq<R,eof>, star, sor<disable<R>,any>, opt<disable<R>>, with no action / apply / apply0 attached to the rule, eager and lazy, on ALL "
           "strings up to length 4..9 over a rule-specific alphabet plus boundary numerals and chunked bodies; (b) every core/convenience/"
           "try_catch combinator over adversarial slots entered under rewind_mode::required (sor non-last, star body, top level), rapidcheck "
           "scripts; (c) random mixed grammars on all short inputs.  Oracle: invariant per invocation - returned false under required => "
